@@ -46,6 +46,12 @@ func init() {
 		&trUnit{pkg: "lib/journal/performance", mod: "Performance", funcs: []string{
 			"split", "pickTargets", "Calculator.isPortfolioAccount", "sum", "Performance", "Universe.Locate",
 			"Calculator.ComputeValues", "Calculator.ComputeFlows", "Perf",
+		}, agree: map[string]string{"split": "PerformanceFlows", "Calculator.ComputeFlows": "PerformanceFlows", "Perf": "PerformanceFlows"}},
+		// lib/reports/weights: not listed (and why): Query.Execute (`append(ss[:level], …)` writes into the array of the slice that
+		// Universe.Locate returned, i.e. into the universe: capacity and sharing of arrays are not modelled; account.Mapping.Level uses
+		// regexp), Renderer.* (the table builder: pointers into the table, time.Format, a recursive method)
+		&trUnit{pkg: "lib/reports/weights", mod: "Weights", funcs: []string{
+			"NewReport", "Report.Add", "Report.PropagateWeights", "Report.SortWeighted",
 		}},
 	)
 	trPerfStub("math", "func Max(", "func Max(x, y float64) float64")
@@ -736,4 +742,31 @@ func trPerfEffect(info *types.Info, n ast.Node) bool {
 		}
 	}
 	return false
+}
+
+// perfFuncInst: `F[T]` where F is a declared generic function, used as a value
+func (c *trCtx) perfFuncInst(x *ast.IndexExpr) (string, bool) {
+	switch f := trUnparen(x.X).(type) {
+	case *ast.Ident:
+		if _, ok := c.info().Uses[f].(*types.Func); ok {
+			return c.expr(x.X), true
+		}
+	case *ast.SelectorExpr:
+		if _, isSel := c.info().Selections[f]; !isSel {
+			if _, ok := c.info().Uses[f.Sel].(*types.Func); ok {
+				return c.expr(x.X), true
+			}
+		}
+	}
+	return "", false
+}
+
+// perfPinnedValue: a pinned helper that has a prelude function (compare.Ordered ↦ cmpOrdered) used as a value
+func (c *trCtx) perfPinnedValue(o *types.Func, pos token.Pos) (string, bool) {
+	pin, ok := trPinned[o.Origin().FullName()]
+	if !ok || pin.lean == "" {
+		return "", false
+	}
+	c.t.checkPinned(o.Origin(), pos)
+	return pin.lean, true
 }
